@@ -20,7 +20,7 @@ Vs(W) == DOMAIN W.vamm
 IsTx(e) == e.kind = "tx"
 Op(e, c, m) == e.kind = "tx" /\ e.tx.c = c /\ e.tx.m = m
 EngOp(e, m) == Op(e, "engine", m)
-IsVammName(c) == c \in {"vamm1", "vamm2", "vamm3"}
+IsVammName(c) == c \in {"vamm1", "vamm2", "vamm3", "vamm4"}
 Unchanged(e) == e.dpre = e.dpost
 Tag(b, t) == IF b THEN {} ELSE {t}          \* clause b must hold, else tag t
 
